@@ -227,3 +227,42 @@ def pre_subjects_tree(raw):
     return raw
 
 
+
+
+# ---------- the REAL front-end helpers, run by node (tools/jsdecode.js extracts them from kingdon/graph.js) ----------
+def _jsonable(x):
+    import base64
+    if isinstance(x, (bytes, bytearray)):
+        return {'__bytes__': base64.b64encode(bytes(x)).decode()}
+    if isinstance(x, dict):
+        return {str(k): _jsonable(v) for k, v in x.items()}
+    if isinstance(x, (list, tuple)):
+        return [_jsonable(v) for v in x]
+    if isinstance(x, (np.integer,)):
+        return int(x)
+    if isinstance(x, (np.floating,)):
+        return float(x)
+    return x
+
+
+def node_decode(jobs, repo):
+    """jobs: list of (subjects, key2idx).  -> list of decoded structures ({'E': [...]} for elements) or {'error': ...};
+    None when node is not available."""
+    import shutil, subprocess, json, os
+    node = shutil.which('node') or '/root/.nvm/versions/node/v20.20.2/bin/node'
+    if not os.path.exists(node):
+        return None
+    inp = '\n'.join(json.dumps({'key2idx': {str(k): v for k, v in k2i.items()}, 'subjects': _jsonable(subj)}) for subj, k2i in jobs)
+    script = os.path.join(os.path.dirname(os.path.abspath(__file__)), 'jsdecode.js')
+    p = subprocess.run([node, script, os.path.join(repo, 'kingdon', 'graph.js')], input=inp, capture_output=True, text=True, timeout=300)
+    out = [json.loads(l) for l in p.stdout.splitlines() if l.strip()]
+    return out if len(out) == len(jobs) else None
+
+
+def py_decoded_to_json(d):
+    """the python re-model's result in the shape node_decode returns"""
+    if isinstance(d, tuple) and len(d) == 2 and d[0] == 'E':
+        return {'E': [float(x) for x in d[1]]}
+    if isinstance(d, (list, tuple)):
+        return [py_decoded_to_json(x) for x in d]
+    return d
